@@ -319,7 +319,13 @@ class UnicodeSubset(MutableSet[CodePoint]):
         obj = self.__copy__()
         return obj.__isub__(other)
 
-    __rsub__ = __sub__
+    def __rsub__(self, other: object) -> 'UnicodeSubset':
+        # other - self: the difference is not commutative
+        if not isinstance(other, Iterable):
+            return NotImplemented
+        obj = UnicodeSubset()
+        obj.__ior__(other)
+        return obj.__isub__(self)
 
     def __iand__(self, other: object) -> 'UnicodeSubset':
         if not isinstance(other, Iterable):
